@@ -215,9 +215,13 @@ where
 {
     type Stream = Self;
 
-    fn into_parts(self) -> (Vector<VectorDiffContainerStreamElement<S>>, Self::Stream) {
+    fn into_parts(mut self) -> (Vector<VectorDiffContainerStreamElement<S>>, Self::Stream) {
         // Hand out the limited view, not the internal copy of the source.
         let values = self.buffered_vector.clone().truncate_from_end(self.limit);
+
+        // The values above already include the diffs that are still waiting
+        // to be handed out: they must not be emitted on top of them.
+        self.ready_values = Default::default();
 
         (values, self)
     }
